@@ -344,6 +344,8 @@ impl<K, V, S> HashMap<K, V, S> {
         if let Some(c) = guard.collector() {
             assert!(Collector::ptr_eq(c, &self.collector));
         }
+        #[cfg(flurry_verif)]
+        crate::verif::event(crate::verif::Event::GuardChecked);
     }
 
     /// Returns the number of entries in the map.
@@ -360,6 +362,13 @@ impl<K, V, S> HashMap<K, V, S> {
     /// assert!(map.pin().len() == 2);
     /// ```
     pub fn len(&self) -> usize {
+        #[cfg(flurry_verif)]
+        crate::verif::word(
+            crate::verif::Kind::Load,
+            crate::verif::Cell::Count,
+            &self.count as *const _ as usize,
+            Ordering::Relaxed,
+        );
         let n = self.count.load(Ordering::Relaxed);
         if n < 0 {
             0
@@ -444,13 +453,29 @@ impl<K, V, S> HashMap<K, V, S> {
                 break table;
             }
             // try to allocate the table
+            #[cfg(flurry_verif)]
+            crate::verif::word(
+                crate::verif::Kind::Load,
+                crate::verif::Cell::SizeCtl,
+                &self.size_ctl as *const _ as usize,
+                Ordering::SeqCst,
+            );
             let mut sc = self.size_ctl.load(Ordering::SeqCst);
             if sc < 0 {
                 // we lost the initialization race; just spin
+                #[cfg(flurry_verif)]
+                crate::verif::spin();
                 std::thread::yield_now();
                 continue;
             }
 
+            #[cfg(flurry_verif)]
+            crate::verif::word(
+                crate::verif::Kind::Cas,
+                crate::verif::Cell::SizeCtl,
+                &self.size_ctl as *const _ as usize,
+                Ordering::SeqCst,
+            );
             if self
                 .size_ctl
                 .compare_exchange(sc, -1, Ordering::SeqCst, Ordering::Relaxed)
@@ -471,6 +496,13 @@ impl<K, V, S> HashMap<K, V, S> {
                     self.table.store(table, Ordering::SeqCst);
                     sc = load_factor!(n as isize)
                 }
+                #[cfg(flurry_verif)]
+                crate::verif::word(
+                    crate::verif::Kind::Store,
+                    crate::verif::Cell::SizeCtl,
+                    &self.size_ctl as *const _ as usize,
+                    Ordering::SeqCst,
+                );
                 self.size_ctl.store(sc, Ordering::SeqCst);
                 break table;
             }
@@ -547,6 +579,13 @@ where
         } as isize;
 
         loop {
+            #[cfg(flurry_verif)]
+            crate::verif::word(
+                crate::verif::Kind::Load,
+                crate::verif::Cell::SizeCtl,
+                &self.size_ctl as *const _ as usize,
+                Ordering::SeqCst,
+            );
             let size_ctl = self.size_ctl.load(Ordering::SeqCst);
             if size_ctl < 0 {
                 break;
@@ -572,6 +611,13 @@ where
                 let new_capacity = requested_capacity.max(initial_capacity) as usize;
 
                 // try to aquire the initialization "lock" to indicate that we are initializing the table.
+                #[cfg(flurry_verif)]
+                crate::verif::word(
+                    crate::verif::Kind::Cas,
+                    crate::verif::Cell::SizeCtl,
+                    &self.size_ctl as *const _ as usize,
+                    Ordering::SeqCst,
+                );
                 if self
                     .size_ctl
                     .compare_exchange(size_ctl, -1, Ordering::SeqCst, Ordering::Relaxed)
@@ -589,6 +635,13 @@ where
 
                     // the table is already initialized; Write the `size_ctl` value it had back to it's
                     // `size_ctl` field to release the initialization "lock"
+                    #[cfg(flurry_verif)]
+                    crate::verif::word(
+                        crate::verif::Kind::Store,
+                        crate::verif::Cell::SizeCtl,
+                        &self.size_ctl as *const _ as usize,
+                        Ordering::SeqCst,
+                    );
                     self.size_ctl.store(size_ctl, Ordering::SeqCst);
                     continue;
                 }
@@ -615,6 +668,13 @@ where
 
                 // store the next load at which the table should resize to it's size_ctl field
                 // and thus release the initialization "lock"
+                #[cfg(flurry_verif)]
+                crate::verif::word(
+                    crate::verif::Kind::Store,
+                    crate::verif::Cell::SizeCtl,
+                    &self.size_ctl as *const _ as usize,
+                    Ordering::SeqCst,
+                );
                 self.size_ctl.store(new_load_to_resize_at, Ordering::SeqCst);
             } else if requested_capacity <= size_ctl || current_capactity >= MAXIMUM_CAPACITY {
                 // Either the `requested_capacity` was smaller than or equal to the load we would resize at (size_ctl)
@@ -632,6 +692,13 @@ where
                 // and since our size_control field needs to be negative
                 // to indicate a resize this needs to be addressed
 
+                #[cfg(flurry_verif)]
+                crate::verif::word(
+                    crate::verif::Kind::Cas,
+                    crate::verif::Cell::SizeCtl,
+                    &self.size_ctl as *const _ as usize,
+                    Ordering::SeqCst,
+                );
                 if self
                     .size_ctl
                     .compare_exchange(size_ctl, rs + 2, Ordering::SeqCst, Ordering::Relaxed)
@@ -664,11 +731,23 @@ where
         let stride = if ncpu > 1 { (n >> 3) / ncpu } else { n };
         let stride = std::cmp::max(stride as isize, MIN_TRANSFER_STRIDE);
 
+        #[cfg(flurry_verif)]
+        crate::verif::event(crate::verif::Event::ResizeEnter {
+            n,
+            initiator: next_table_ptr.is_null(),
+        });
         if next_table_ptr.is_null() {
             // we are initiating a resize
             let table = Shared::boxed(Table::new(n << 1, &self.collector), &self.collector);
             let now_garbage = self.next_table.swap(table, Ordering::SeqCst, guard);
             assert!(now_garbage.is_null());
+            #[cfg(flurry_verif)]
+            crate::verif::word(
+                crate::verif::Kind::Store,
+                crate::verif::Cell::TransferIndex,
+                &self.transfer_index as *const _ as usize,
+                Ordering::SeqCst,
+            );
             self.transfer_index.store(n as isize, Ordering::SeqCst);
             next_table_ptr = self.next_table.load(Ordering::Relaxed, guard);
         }
@@ -689,6 +768,13 @@ where
                     break;
                 }
 
+                #[cfg(flurry_verif)]
+                crate::verif::word(
+                    crate::verif::Kind::Load,
+                    crate::verif::Cell::TransferIndex,
+                    &self.transfer_index as *const _ as usize,
+                    Ordering::SeqCst,
+                );
                 let next_index = self.transfer_index.load(Ordering::SeqCst);
                 if next_index <= 0 {
                     i = -1;
@@ -701,6 +787,13 @@ where
                 } else {
                     0
                 };
+                #[cfg(flurry_verif)]
+                crate::verif::word(
+                    crate::verif::Kind::Cas,
+                    crate::verif::Cell::TransferIndex,
+                    &self.transfer_index as *const _ as usize,
+                    Ordering::SeqCst,
+                );
                 if self
                     .transfer_index
                     .compare_exchange(next_index, next_bound, Ordering::SeqCst, Ordering::Relaxed)
@@ -720,6 +813,8 @@ where
                     // this branch is only taken for one thread partaking in the resize!
                     self.next_table.store(Shared::null(), Ordering::SeqCst);
                     let now_garbage = self.table.swap(next_table_ptr, Ordering::SeqCst, guard);
+                    #[cfg(flurry_verif)]
+                    crate::verif::event(crate::verif::Event::TablePublished { n: next_n });
                     // safety: need to guarantee that now_garbage is no longer reachable. more
                     // specifically, no thread that executes _after_ this line can ever get a
                     // reference to now_garbage.
@@ -746,18 +841,46 @@ where
                     // in the reference count, meaning the garbage will not be freed until
                     // that thread drops its guard at the earliest.
                     unsafe { guard.retire_shared(now_garbage) };
+                    #[cfg(flurry_verif)]
+                    crate::verif::word(
+                        crate::verif::Kind::Store,
+                        crate::verif::Cell::SizeCtl,
+                        &self.size_ctl as *const _ as usize,
+                        Ordering::SeqCst,
+                    );
                     self.size_ctl
                         .store(((n as isize) << 1) - ((n as isize) >> 1), Ordering::SeqCst);
+                    #[cfg(flurry_verif)]
+                    crate::verif::event(crate::verif::Event::ResizeLeave { n, finisher: true });
                     return;
                 }
 
+                #[cfg(flurry_verif)]
+                crate::verif::word(
+                    crate::verif::Kind::Load,
+                    crate::verif::Cell::SizeCtl,
+                    &self.size_ctl as *const _ as usize,
+                    Ordering::SeqCst,
+                );
                 let sc = self.size_ctl.load(Ordering::SeqCst);
+                #[cfg(flurry_verif)]
+                crate::verif::word(
+                    crate::verif::Kind::Cas,
+                    crate::verif::Cell::SizeCtl,
+                    &self.size_ctl as *const _ as usize,
+                    Ordering::SeqCst,
+                );
                 if self
                     .size_ctl
                     .compare_exchange(sc, sc - 1, Ordering::SeqCst, Ordering::Relaxed)
                     .is_ok()
                 {
                     if (sc - 2) != Self::resize_stamp(n) << RESIZE_STAMP_SHIFT {
+                        #[cfg(flurry_verif)]
+                        crate::verif::event(crate::verif::Event::ResizeLeave {
+                            n,
+                            finisher: false,
+                        });
                         return;
                     }
 
@@ -791,6 +914,10 @@ where
                         guard,
                     )
                     .is_ok();
+                #[cfg(flurry_verif)]
+                if advance {
+                    crate::verif::event(crate::verif::Event::BinMigrated { n, i });
+                }
                 continue;
             }
             // safety: as for table above
@@ -819,6 +946,8 @@ where
                 }
                 BinEntry::Node(ref head) => {
                     // bin is non-empty, need to link into it, so we must take the lock
+                    #[cfg(flurry_verif)]
+                    crate::verif::before_lock(&head.lock);
                     let head_lock = head.lock.lock();
 
                     // need to check that this is _still_ the head
@@ -906,6 +1035,8 @@ where
                     next_table.store_bin(i, low_bin);
                     next_table.store_bin(i + n, high_bin);
                     table.store_bin(i, table.get_moved(next_table_ptr, guard));
+                    #[cfg(flurry_verif)]
+                    crate::verif::event(crate::verif::Event::BinMigrated { n, i });
 
                     // everything up to last_run in the _old_ bin linked list is now garbage.
                     // those nodes have all been re-allocated in the new bin linked list.
@@ -934,6 +1065,8 @@ where
                     drop(head_lock);
                 }
                 BinEntry::Tree(ref tree_bin) => {
+                    #[cfg(flurry_verif)]
+                    crate::verif::before_lock(&tree_bin.lock);
                     let bin_lock = tree_bin.lock.lock();
 
                     // need to check that this is _still_ the correct bin
@@ -1061,6 +1194,8 @@ where
                     next_table.store_bin(i, low_bin);
                     next_table.store_bin(i + n, high_bin);
                     table.store_bin(i, table.get_moved(next_table_ptr, guard));
+                    #[cfg(flurry_verif)]
+                    crate::verif::event(crate::verif::Event::BinMigrated { n, i });
 
                     // if we did not re-use the old bin, it is now garbage,
                     // since all of its nodes have been reallocated. However,
@@ -1110,7 +1245,21 @@ where
         while next_table == self.next_table.load(Ordering::SeqCst, guard)
             && table == self.table.load(Ordering::SeqCst, guard)
         {
+            #[cfg(flurry_verif)]
+            crate::verif::word(
+                crate::verif::Kind::Load,
+                crate::verif::Cell::SizeCtl,
+                &self.size_ctl as *const _ as usize,
+                Ordering::SeqCst,
+            );
             let sc = self.size_ctl.load(Ordering::SeqCst);
+            #[cfg(flurry_verif)]
+            crate::verif::word(
+                crate::verif::Kind::Load,
+                crate::verif::Cell::TransferIndex,
+                &self.transfer_index as *const _ as usize,
+                Ordering::SeqCst,
+            );
             if sc >= 0
                 || sc == rs + MAX_RESIZERS
                 || sc == rs + 1
@@ -1119,6 +1268,13 @@ where
                 break;
             }
 
+            #[cfg(flurry_verif)]
+            crate::verif::word(
+                crate::verif::Kind::Cas,
+                crate::verif::Cell::SizeCtl,
+                &self.size_ctl as *const _ as usize,
+                Ordering::SeqCst,
+            );
             if self
                 .size_ctl
                 .compare_exchange(sc, sc + 1, Ordering::SeqCst, Ordering::Relaxed)
@@ -1135,6 +1291,13 @@ where
         // TODO: implement the Java CounterCell business here
 
         use std::cmp;
+        #[cfg(flurry_verif)]
+        crate::verif::word(
+            crate::verif::Kind::Rmw,
+            crate::verif::Cell::Count,
+            &self.count as *const _ as usize,
+            Ordering::SeqCst,
+        );
         let mut count = match n.cmp(&0) {
             cmp::Ordering::Greater => self.count.fetch_add(n, Ordering::SeqCst) + n,
             cmp::Ordering::Less => self.count.fetch_sub(n.abs(), Ordering::SeqCst) - n,
@@ -1151,6 +1314,13 @@ where
         let _saw_bin_length = resize_hint.unwrap();
 
         loop {
+            #[cfg(flurry_verif)]
+            crate::verif::word(
+                crate::verif::Kind::Load,
+                crate::verif::Cell::SizeCtl,
+                &self.size_ctl as *const _ as usize,
+                Ordering::SeqCst,
+            );
             let sc = self.size_ctl.load(Ordering::SeqCst);
             if count < sc {
                 // we're not at the next resize point yet
@@ -1184,11 +1354,25 @@ where
                 if nt.is_null() {
                     break;
                 }
+                #[cfg(flurry_verif)]
+                crate::verif::word(
+                    crate::verif::Kind::Load,
+                    crate::verif::Cell::TransferIndex,
+                    &self.transfer_index as *const _ as usize,
+                    Ordering::SeqCst,
+                );
                 if self.transfer_index.load(Ordering::SeqCst) <= 0 {
                     break;
                 }
 
                 // try to join!
+                #[cfg(flurry_verif)]
+                crate::verif::word(
+                    crate::verif::Kind::Cas,
+                    crate::verif::Cell::SizeCtl,
+                    &self.size_ctl as *const _ as usize,
+                    Ordering::SeqCst,
+                );
                 if self
                     .size_ctl
                     .compare_exchange(sc, sc + 1, Ordering::SeqCst, Ordering::Relaxed)
@@ -1208,6 +1392,13 @@ where
             }
 
             // another resize may be needed!
+            #[cfg(flurry_verif)]
+            crate::verif::word(
+                crate::verif::Kind::Load,
+                crate::verif::Cell::Count,
+                &self.count as *const _ as usize,
+                Ordering::SeqCst,
+            );
             count = self.count.load(Ordering::SeqCst);
         }
     }
@@ -1468,6 +1659,8 @@ where
                     idx = 0;
                 }
                 BinEntry::Node(ref node) => {
+                    #[cfg(flurry_verif)]
+                    crate::verif::before_lock(&node.lock);
                     let head_lock = node.lock.lock();
                     // need to check that this is _still_ the head
                     let current_head = tab.bin(idx, guard);
@@ -1520,6 +1713,8 @@ where
                     idx += 1;
                 }
                 BinEntry::Tree(ref tree_bin) => {
+                    #[cfg(flurry_verif)]
+                    crate::verif::before_lock(&tree_bin.lock);
                     let bin_lock = tree_bin.lock.lock();
                     // need to check that this is _still_ the correct bin
                     let current_head = tab.bin(idx, guard);
@@ -1767,6 +1962,8 @@ where
                 }
                 BinEntry::Node(ref head) => {
                     // bin is non-empty, need to link into it, so we must take the lock
+                    #[cfg(flurry_verif)]
+                    crate::verif::before_lock(&head.lock);
                     let head_lock = head.lock.lock();
 
                     // need to check that this is _still_ the head
@@ -1857,6 +2054,8 @@ where
                 // cannot occur as in the Java code, TreeBins have a special, indicator hash value
                 BinEntry::Tree(ref tree_bin) => {
                     // bin is non-empty, need to link into it, so we must take the lock
+                    #[cfg(flurry_verif)]
+                    crate::verif::before_lock(&tree_bin.lock);
                     let head_lock = tree_bin.lock.lock();
 
                     // need to check that this is _still_ the correct bin
@@ -2070,6 +2269,8 @@ where
                 }
                 BinEntry::Node(ref head) => {
                     // bin is non-empty, need to link into it, so we must take the lock
+                    #[cfg(flurry_verif)]
+                    crate::verif::before_lock(&head.lock);
                     let head_lock = head.lock.lock();
 
                     // need to check that this is _still_ the head
@@ -2101,6 +2302,8 @@ where
                             // safety: since the value is present now, and we've held a guard from
                             // the beginning of the search, the value cannot be dropped until after
                             // we drop our guard.
+                            #[cfg(flurry_verif)]
+                            crate::verif::event(crate::verif::Event::Callback);
                             let new_value =
                                 remapping_function(&n.key, unsafe { current_value.deref() });
 
@@ -2189,6 +2392,8 @@ where
                 }
                 BinEntry::Tree(ref tree_bin) => {
                     // bin is non-empty, need to link into it, so we must take the lock
+                    #[cfg(flurry_verif)]
+                    crate::verif::before_lock(&tree_bin.lock);
                     let bin_lock = tree_bin.lock.lock();
 
                     // need to check that this is _still_ the head
@@ -2228,6 +2433,8 @@ where
                             // safety: since the value is present now, and we've held a guard from
                             // the beginning of the search, the value cannot be dropped until after
                             // we drop our guard.
+                            #[cfg(flurry_verif)]
+                            crate::verif::event(crate::verif::Event::Callback);
                             let new_value =
                                 remapping_function(&n.key, unsafe { current_value.deref() });
 
@@ -2464,6 +2671,8 @@ where
                     continue;
                 }
                 BinEntry::Node(ref head) => {
+                    #[cfg(flurry_verif)]
+                    crate::verif::before_lock(&head.lock);
                     let head_lock = head.lock.lock();
 
                     // need to check that this is _still_ the head
@@ -2533,6 +2742,8 @@ where
                     drop(head_lock);
                 }
                 BinEntry::Tree(ref tree_bin) => {
+                    #[cfg(flurry_verif)]
+                    crate::verif::before_lock(&tree_bin.lock);
                     let bin_lock = tree_bin.lock.lock();
 
                     // need to check that this is _still_ the head
@@ -2675,6 +2886,8 @@ where
         while let Some((k, v)) = iter.next_internal() {
             // safety: flurry does not drop or move until after guard drop
             let value = unsafe { v.deref() };
+            #[cfg(flurry_verif)]
+            crate::verif::event(crate::verif::Event::Callback);
             if !f(k, value) {
                 self.replace_node(k, None, Some(v), guard);
             }
@@ -2708,6 +2921,8 @@ where
         self.check_guard(guard);
         // removed selected keys
         for (k, v) in self.iter(guard) {
+            #[cfg(flurry_verif)]
+            crate::verif::event(crate::verif::Event::Callback);
             if !f(k, v) {
                 self.replace_node(k, None, None, guard);
             }
@@ -2735,6 +2950,8 @@ where
             // won't be dropped until after we release our guard.
             match **unsafe { bin.deref() } {
                 BinEntry::Node(ref node) => {
+                    #[cfg(flurry_verif)]
+                    crate::verif::before_lock(&node.lock);
                     let lock = node.lock.lock();
                     // check if `bin` is still the head
                     if tab.bin(index, guard) != bin {
@@ -3550,3 +3767,7 @@ mod tree_bins {
         assert_eq!(oops.unwrap(), "hello");
     }
 }
+
+#[cfg(flurry_verif)]
+#[path = "map_verif.rs"]
+mod verif_impl;
